@@ -69,13 +69,17 @@ deriving Repr
 namespace Whn
 variable {α : Type}
 
+/-- `on_error` / `on_completed` (shared by the source and the closing observables): the window, then the outer observer. -/
+def onEnd (s : Whn α) (e : Option Err) : Whn α := { s with b := (s.b.winEnd s.cur e).outerEnd e }
+
 /-- `create_window_on_completed()`: call the mapper (`raiseAt = some k`: its k-th call raises; at most `pool`
 closing observables exist, later calls return `never()`), then `m.disposable = m1` (the previous closing
-subscription is disposed) and subscribe to `window_close.pipe(take(1))`. -/
+subscription is disposed) and subscribe to `window_close.pipe(take(1))`.  A raising mapper goes to the shared
+`on_error(exception)`: the open window fails, then the outer observer (repo fix c2c9edd). -/
 def createClosing (raiseAt : Option Nat) (pool : Nat) (s : Whn α) : Whn α :=
   let k := s.calls
   let s := { s with calls := k + 1 }
-  if raiseAt == some k then { s with b := s.b.outerEnd (some s!"cm{k}") }
+  if raiseAt == some k then onEnd s (some s!"cm{k}")
   else
     -- SerialDisposable: assigning disposes the old one (or the new one if the serial is already disposed)
     let b := if k ≥ 1 then s.b.unsub k else s.b
@@ -83,11 +87,16 @@ def createClosing (raiseAt : Option Nat) (pool : Nat) (s : Whn α) : Whn α :=
     let b := if k < pool then (if b.rcDisposed then (b.subscribe (k + 1)).unsub (k + 1) else b.subscribe (k + 1)) else b
     { s with b := b }
 
+/-! ### AsIs (before repo fix c2c9edd): the raising mapper reached only `observer.on_error(exception)`; the open
+window was never terminated and kept the source subscribed.  Used only by the witness `C18.when_mapper_raise_asis`. -/
+def createClosingAsIs (raiseAt : Option Nat) (s : Whn α) : Whn α :=
+  let k := s.calls
+  let s := { s with calls := k + 1 }
+  if raiseAt == some k then { s with b := s.b.outerEnd (some s!"cm{k}") } else s
+
 def init (raiseAt : Option Nat) (pool : Nat) (t0 : Nat) : Whn α :=
   let (b, id) := ({ now := t0 } : Base α).newWin
   createClosing raiseAt pool { b := (b.outerNext id).subscribe 0, cur := id }
-
-def onEnd (s : Whn α) (e : Option Err) : Whn α := { s with b := (s.b.winEnd s.cur e).outerEnd e }
 
 /-- the closing observable fired (`take(1)`: first `next`, or `completed`). -/
 def onClose (raiseAt : Option Nat) (pool : Nat) (s : Whn α) : Whn α :=
